@@ -13,6 +13,7 @@ def run(w, rep, tier):
     rep.rule("C08.API", "SE23LieGroup.exp_mixed, the element-level sugar and derive_strapdown_ins_propagation resolve and bind their arguments")
     rep.rule("C08.ode", "closed form of strapdown_ins_propagate satisfies p' = v, v' = R a - g e3, q' = 1/2 q*(0,w) in dt, for unit q0 (modulo |q|=1), half angles unified")
     rep.rule("C08.init", "x1(dt = 0) = x0 with the series limits at 0")
+    rep.rule("C08.regular", "constant propagation of omega_b = 0 and of dt = 0 through the generated expression: no division by zero, sqrt(0), acos(+-1) on the selected if_else path")
     rep.rule("C08.norm", "|q1|^2 = 1 for unit q0")
     rep.rule("C08.sig", "Function signature: inputs (x0[10], a_b[3], omega_b[3], g, dt), one output x1[10]")
     rdd2 = w.mod("cyecca.models.rdd2")
@@ -73,5 +74,21 @@ def run(w, rep, tier):
         if okz:
             verdict(rep, "C08.init", "x1(dt = 0) = x0", x10, x0, [qa], We, "a zero step is not the identity")
         verdict(rep, "C08.norm", "|q1|^2 = 1 when |q0| = 1", cm.sumsqr(q1), cm.scalar(cm.ONE), [qa], We, "the propagated quaternion does not keep unit norm")
+    # zero rate / zero step: nothing singular may be evaluated on the selected path (the ring identifies 0 * (1/0) with 0,
+    # so the closed-form rules above cannot see an inline quotient by theta^2; constant propagation of the zero does)
+    from ..pointscan import Scan
+    from fractions import Fraction as Fr
+    raw = f(x0, a, om, g, dt)
+    for label, pt in (("omega_b = 0 (hover, rest)", {at: Fr(0) for at in sym_atoms_of(om)}), ("dt = 0", {dt.s().single_atom(): Fr(0)})):
+        sc = Scan(pt)
+        for p_ in raw.flat():
+            sc.poly(p_)
+        inst = "strapdown_ins_propagate at %s evaluates no singular operator" % label
+        if sc.flags:
+            a0, why = sc.flags[0]
+            rep.fail("C08.regular", inst, "%s [%s]: the propagated state is NaN there" % (why, short(Poly.atom(a0), 100)), where=We)
+        else:
+            rep.ok("C08.regular", inst, fact={"atoms_visited": len(sc.memo)})
+    rep.floor("C08.regular", 2)
     rep.floor("C08.ode", 3)
     rep.undecided_clause("the Taylor branch for |omega|^2 dt^2 < 1e-3 (C06) and floating-point error")
